@@ -26,7 +26,13 @@ T0 = datetime.datetime(2020, 1, 2, 3, 4, 5, tzinfo=datetime.timezone.utc)
 
 
 class Store:
-    def __init__(self, kind, root, budget_mb=None, shared_meta=True, read_only=None):
+    def __init__(self, kind, root, budget_mb=None, shared_meta=True, read_only=None, construct="kw", decoy_refs=()):
+        # construct: "kw" - keyword arguments only; "config+kw" - a configuration dict that was used before for another
+        # store, whose values (other path, larger cache) the keyword arguments override ("Parameters that follow `config`
+        # override its values")
+        self.construct = construct
+        self.decoy_refs = list(decoy_refs)
+        self.cfg = None
         self.kind = kind  # "fs" | "fsc" | "mem"
         self.root = root
         self.budget_mb = budget_mb if kind == "fsc" else None
@@ -41,6 +47,20 @@ class Store:
         if self.kind == "mem":
             if self.backend is None:
                 self.backend = MemoryStorageBackend(read_only=self.read_only)
+            return
+        if self.construct == "config+kw":
+            if self.cfg is None:
+                self.cfg = {"type": "filesystem"}
+                if self.kind == "fsc":
+                    self.cfg["memory_cache_mb"] = 64
+                # an earlier store made from the very same dict (a base configuration reused with another path); it holds
+                # results for the calls this session is going to make, none of which belongs to the store under test
+                decoy = FilesystemStorageBackend(config=self.cfg, path=os.path.join(self.root, "decoy"))
+                for r in self.decoy_refs:
+                    decoy.memoize(None, make_memento(r, "decoy"), "decoy")
+            self.backend = FilesystemStorageBackend(
+                config=self.cfg, path=self.data_path, metadata_path=None if self.shared_meta else self.meta_path,
+                memory_cache_mb=self.budget_mb, read_only=self.read_only)
             return
         self.backend = FilesystemStorageBackend(
             path=self.data_path, metadata_path=None if self.shared_meta else self.meta_path,
@@ -72,14 +92,24 @@ class Session:
         self.refs = hfuncs.refs()
         budget_kb = case.get("budget_kb")
         self.budget_mb = (budget_kb / 1024.0) if budget_kb else None
+        decoy_refs = []
+        if case.get("construct") == "config+kw" and stores is None:
+            seen = set()
+            for op in case["ops"]:
+                pairs = [op[1:3]] if op[0] in ("memoize", "read", "get", "is") else (op[1] if op[0] in ("isall", "getmany") else [])
+                for f, a in pairs:
+                    if (f, a) not in seen:
+                        seen.add((f, a))
+                        decoy_refs.append(self.refs[f].with_args(a))
+            self.labels_init = {"config-dict-reused"}
         self.stores = stores if stores is not None else [
             Store(kind, os.path.join(scratch, kind), budget_mb=self.budget_mb,
-                  shared_meta=case.get("shared_meta", True))
+                  shared_meta=case.get("shared_meta", True), construct=case.get("construct", "kw"), decoy_refs=decoy_refs)
             for kind in case.get("backends", ["fs", "fsc", "mem"])
         ]
         self.model = {}       # (qn, arg_hash) -> entry dict
         self.touched = []     # [(fnkey, arg)] in first-touch order
-        self.labels = set()
+        self.labels = set(getattr(self, "labels_init", ()))
         self.out = Outcome()
         self.step = -1
         self.forgotten = set()
@@ -184,7 +214,15 @@ class Session:
             if not ok:
                 continue
             want = values.build(self.model[k]["vdesc"])
-            if not values.typed_equal(want, got):
+            try:
+                same = values.typed_equal(want, got)
+            except Exception as e:   # (a partition reads its members lazily)
+                sig = lib_exception_signature(e)
+                if sig is None:
+                    raise
+                self.fail(s, "exception", "the value returned by read_result(%s(%r)) raised %r when it was used" % (fnkey, arg, e), op="use_result", **sig)
+                continue
+            if not same:
                 self.fail(s, "stale-or-wrong-value", "read_result(%s(%r)) returned %s, last value written is %s" % (
                     fnkey, arg, _short(got), _short(want)), op="read_result")
 
